@@ -116,3 +116,25 @@ MANIFEST_TEXT['C13'] = {'text': 'Lean theorems over all decoded ASN.1 trees of t
          'modelled as the code behaves and are outside the error theorems. Trusted: Lean kernel (axioms propext/Classical.choice/Quot.sound at most), '
          'extractor, harness.',
  'technique': 'Lean 4 proof over an executable model + differential correspondence (structured grid + random)'}
+
+PROPS["C08"] = {
+    "rule": "validate.TdxQuote on a structurally valid base message under: every single XFAM / TD_ATTRIBUTES bit set and cleared (256), QE/PCE SVN minimums at -1/0/+1 and extremes, each of the 16 TEE_TCB_SVN components at -1/0/+1, MinimumTeeTcbSvn of length 0/1/3/15/16/17/32, each of the 10 byte options in 8 variants {nil, empty, equal, differs in first/last/random byte, one short, one long} singly and pairwise (3-wise sample in thorough), RTMR lists of length 0-5 over {empty, equal, wrong, short} entries, allowed-MR_TD lists of length 0-4 with the match at each position and empty / wrongly sized entries, every structural mutation of the message, nil options, random combinations; non-trivial = options non-nil and the message structurally valid; distinct by case line",
+    "trusted_base": ["validate.go is modelled Go-faithfully incl. eager evaluation of multierr.Combine arguments; logging is ignored"],
+    "assumptions": ["nil vs empty byte slices are distinguished only where the code does (lengthCheck, isSvnHigherOrEqual)"],
+}
+PROPS["C14"] = {
+    "rule": "validate.PolicyToOptions on: nil / empty policy, absent sub-policies, the full policy, each byte field independently {absent, empty, equal, different, one short, one long, 1 byte} alone and inside the full policy, SVN minimums {0, 261, 262, 65535, 65536, 2^32-1}, RTMR lists 0-5, allowed-MR_TD lists 0-4, random policies; every successfully converted policy then validates 8 probe quotes (matching and one mismatching per field) and the verdict is compared with the policy's literal meaning; non-trivial = conversion succeeded; distinct by case line",
+    "trusted_base": ["protobuf getters' nil-safety is assumed (absent sub-policies read as zero values)"],
+    "assumptions": [],
+}
+
+MANIFEST_TEXT["C08"] = {
+    "text": "Lean theorem validate_ok_iff_meets over every message and every options value: validation = ok exactly when CheckQuoteV4 holds and the declarative predicate Meets holds (exact fields, RTMR list, allowed MR_TD set, component-wise TEE_TCB_SVN, little-endian QE/PCE SVN minimums, XFAM / TD_ATTRIBUTES masks stated bit-wise against the regenerated constants); validate_never_panics for every (possibly nil / malformed) input; miss_is_rejected; F7 witnesses. Go-faithful model of validate.go compared with validate.TdxQuote on bit-exhaustive mask cases, boundary SVNs, pairwise option variants and structural message mutations, with an independent oracle over the statement.",
+    "note": "Trusted: Lean kernel, extractor (mask constants and sizes regenerated), harness. multierr.Combine is modelled as eager evaluation of all arguments; logging ignored; protobuf getters assumed nil-safe.",
+    "technique": "Lean 4 proof (refinement to a declarative spec) + differential correspondence",
+}
+MANIFEST_TEXT["C14"] = {
+    "text": "Lean theorems: conversion_ok_iff (PolicyToOptions succeeds exactly on well-sized policies: 16-bit SVN minimums, every byte-string expectation incl. minimum_tee_tcb_svn nil or exactly sized, 4 RTMR entries), field_mapping (the options are the policy's fields, none dropped or crossed), conversion_preserves_meaning (under converted options validation = the policy's literal meaning for every quote, and never panics), F7 witnesses; compared with validate.PolicyToOptions + validate.TdxQuote on per-field size variants, SVN range boundaries, list shapes and probe quotes.",
+    "note": "Trusted: Lean kernel, extractor, harness. Builds on the C08 refinement theorem. protobuf getters assumed nil-safe.",
+    "technique": "Lean 4 proof (corollary of the C08 refinement) + differential correspondence",
+}
